@@ -59,7 +59,11 @@ Match(c, cands, r, k) ==      \* k = next result row to explain; returns the fai
          IF c.nloci >= 0 /\ k > c.nloci THEN (IF k > Len(r.seqs) THEN "" ELSE "more rows than n_loci")
          ELSE IF z # "omit" /\ k <= Len(r.seqs) /\ r.seqs[k] = SeqOf(c, l)
                  /\ (c.sig => r.sigs[k] = SigOf(c, l)) /\ (c.insig => r.insigs[k] = InSigOf(c, l))
-              THEN Match(c, Tail(cands), r, k + 1)
+              THEN (LET a == Match(c, Tail(cands), r, k + 1) IN
+                    \* a candidate that only TOUCHES an end may also have been omitted while the row belongs to a later locus with
+                    \* the same bases (short windows over a 4-letter alphabet coincide): try that explanation too
+                    IF a = "" \/ z = "keep" THEN a
+                    ELSE LET b == Match(c, Tail(cands), r, k) IN IF b = "" THEN "" ELSE a)
          ELSE IF z = "keep" THEN
               (IF k > Len(r.seqs) THEN "a locus strictly inside its chromosome was omitted"
                ELSE "a row is not the window of the next kept locus (wrong bases / signal / order)")
